@@ -77,6 +77,7 @@
 //	addConn does not delete the map entry (double close)              panic
 //	waitForDirectConn without the dial-peer timeout                   wait-exceeds-dial-peer-timeout/Swarm.NewStream
 //	isBetterConn prefers the limited connection                       direct-conn-ignored
+//	waitForDirectConn checks outside the waiter-list lock (lost wake-up)  waiter-not-released (race stratum; ~9% of all runs; run through ./check with VERIF_REPO)
 //	addConn wakes waiters for limited connections too                 gave-up-without-waiting
 //	circuit client: inbound / outbound Limited flag not set           relayed-conn-not-marked-limited (two mutations)
 //	holepunch removeRelayAddrs keeps everything                       holepunch-dials-relay-address
